@@ -20,6 +20,7 @@ TRUSTED = ("CPython ast", "S1 particle layout", "numpy.loadtxt semantics")
 TECHNIQUE = "static analysis: polynomial interpretation of the particle header bookkeeping against the layout; path and pairing rules"
 
 from . import loader_folds as lfold
+from . import io_folds as iof
 from . import layout_folds as lay
 
 
@@ -36,7 +37,7 @@ def r3(run, tree):
 
 def r4_r5(run, tree):
     run.rule("C14.R4", "sink parsing; empty vs missing", "path + pairing rules", "", floor=8)
-    io2.check_sink(run, tree)
+    iof.check_sink(run, tree)
     lay.check_bodies(run, tree, aspects=("values",))
     lay.check_part_header(run, tree)
 
